@@ -137,7 +137,8 @@ def run(ctx):
         ctx.notes["violation_counts"] = dict(_counts)
     ctx.violation = limited
     kf = c.load_known_findings()
-    known_ids ={f["id"] for f in kf["findings"] if f["property"] == "C06"}
+    known_ids = {f["id"] for f in kf["findings"] if f["property"] == "C06"}
+    ctx.notes["known_findings_listed_for_C06"] = sorted(known_ids)  # none: KF-C06-1 was repaired by /repo 12eb729ed
     ctx.assumptions += [
         "PARTIAL: 'changing any bit of header/payload/signatures/keys makes verification fail' is relative to SHA-256 collision "
         "resistance and ed25519 unforgeability; the theorem states the explicit disjunction (collision or a signature valid on two digests), "
@@ -240,7 +241,7 @@ def run(ctx):
 
     # ---------------------------------------------------------------- 5. sampled stream (+ v1)
     ctx.log("sampled stream")
-    n_s = 1500 if ctx.quick else 12000
+    n_s = 1500 if ctx.quick else 8000
     rc, stats_s, mism, samples, other, raw = run_pipe("samp", n_s, True)
     if rc != 0 or stats_s is None:
         ctx.violation({"layer": "sampled stream", "output": raw[-2000:]}, "sampled harness/model pipeline crashed", no_input=True)
@@ -251,41 +252,48 @@ def run(ctx):
     summ = [o for o in other if o.get("k") == "samp_summary"]
     ctx.notes["sampled"] = {"stats": stats_s, "mutations": summ[0]["mutations"] if summ else None}
     v1 = [o for o in other if o.get("k") == "v1"]
-    exprs = ["verify_v1_bits %s %s %s %s" % (access_term(d["sender"]), access_term(d["sponsor"]), bits_term(d["ssig"]),
-                                             "None" if d["psig"] is None else "(Some %s)" % bits_term(d["psig"])) for d in v1]
-    v1_dist = {"accept": 0, "reject": 0, "sponsored": 0, "sponsor_sig_missing": 0}
+    def v1_expr(d):
+        args = "%s %s %s %s" % (access_term(d["sender"]), access_term(d["sponsor"]), bits_term(d["ssig"]),
+                                "None" if d["psig"] is None else "(Some %s)" % bits_term(d["psig"]))
+        return "(verify_tx_v1_bits %s %s, verify_v1_bits %s)" % ("true" if d["hdr_sponsor"] else "false", args, args)
+    exprs = [v1_expr(d) for d in v1]
+    v1_dist = {"accept": 0, "reject": 0, "sponsor_named_and_signed": 0, "sponsor_named_not_signed": 0,
+               "sponsor_unnamed_but_signed": 0, "unsponsored": 0}
 
     def post_v1(terms):
-      nonlocal evaluations
-      for d, t in zip(v1, terms):
-          m = "1" if t == "true" else "0"
-          evaluations += 1
-          v1_dist["accept" if m == "1" else "reject"] += 1
-          v1_dist["sponsored"] += 1 if d["hdr_sponsor"] else 0
-          if m == "1":
-              seen_nontrivial.add(c.digest(["v1", d["sender"], d["ssig"], d["psig"]]))
-          if not d["hash_ok"]:
-              ctx.violation({"case": d}, "compute_transaction_sign_hash_v1 is not SHA256(prefix || header || payload)")
-          if d["r"] != m or d["r_hash"] != m:
-              ctx.violation({"harness": "c06 samp %d %d" % (ctx.seed, n_s), "case": d, "model": m,
-                             "theorem": "verify_v1_iff_policy"},
-                            "AccountTransactionV1::verify_transaction_signature disagrees with the model (impl %s/%s, model %s)" % (d["r"], d["r_hash"], m))
-              continue
-          # the property's reading (sponsor must sign a sponsored transaction)
-          want = policy_v1(d)
-          if (d["r"] == "1") != want:
-              if d["hdr_sponsor"] and d["psig"] is None and d["r"] == "1" and "KF-C06-1" in known_ids:
-                  v1_dist["sponsor_sig_missing"] += 1
-                  ctx.known_finding("KF-C06-1", "AccountTransactionV1::verify_transaction_signature accepts a transaction whose header names a "
-                                    "sponsor but that carries no sponsor signature (theorem sponsored_requires_sponsor_signature_refuted)")
-              else:
-                  ctx.violation({"case": d, "policy": want}, "v1 verification differs from the threshold policy for sender and sponsor")
+        nonlocal evaluations
+        for d, t in zip(v1, terms):
+            m = "1" if t[0] == "true" else "0"
+            m_hash = "1" if t[1] == "true" else "0"
+            evaluations += 1
+            v1_dist["accept" if m == "1" else "reject"] += 1
+            shape = ("sponsor_named_and_signed" if d["psig"] is not None else "sponsor_named_not_signed") if d["hdr_sponsor"] else \
+                    ("sponsor_unnamed_but_signed" if d["psig"] is not None else "unsponsored")
+            v1_dist[shape] += 1
+            if m == "1":
+                seen_nontrivial.add(c.digest(["v1", d["sender"], d["ssig"], d["psig"]]))
+            if not d["hash_ok"]:
+                ctx.violation({"case": d}, "compute_transaction_sign_hash_v1 is not SHA256(prefix || header || payload)")
+            if d["r"] != m or d["r_hash"] != m_hash:
+                ctx.violation({"harness": "c06 samp %d %d" % (ctx.seed, n_s), "case": d, "model": [m, m_hash],
+                               "theorem": "verify_tx_v1_iff_policy / verify_v1_iff_policy (regression witness: prefix_verify_tx_v1_refuted)"},
+                              "AccountTransactionV1::verify_transaction_signature / verify_signature_transaction_sign_hash_v1 disagree with the "
+                              "model (impl %s/%s, model %s/%s)" % (d["r"], d["r_hash"], m, m_hash))
+                continue
+            # the property's reading, evaluated independently on the harness-computed bits
+            want = policy_v1(d)
+            if (d["r"] == "1") != want:
+                ctx.violation({"harness": "c06 samp %d %d" % (ctx.seed, n_s), "case": d, "policy": want,
+                               "theorem": "sponsored_requires_sponsor_policy"},
+                              "v1 verification (%s) differs from the threshold policy for sender and sponsor (%s)%s" % (
+                                  d["r"], want, "; a sponsored transaction without sponsor signature verifies (regression of 12eb729ed)"
+                                  if d["hdr_sponsor"] and d["psig"] is None else ""))
     later(exprs, post_v1)
     ctx.notes["v1_distribution"] = v1_dist
 
     # ---------------------------------------------------------------- 6. builders, digests, energy
     ctx.log("builders")
-    n_t = 64 if ctx.quick else 1200
+    n_t = 64 if ctx.quick else 800
     rc, out = c.run_bin(binp, ["tx", ctx.seed, n_t], timeout=1800)
     if rc != 0:
         ctx.violation({"layer": "harness run", "output": out[-2000:]}, "tx harness crashed", no_input=True)
@@ -404,6 +412,8 @@ def run(ctx):
     pert = [json.loads(l) for l in out.splitlines() if l.startswith("{")]
     classes = {}
     survived = {}
+    v1_shapes = {}
+    hash_level = {}
     for d in pert:
         evaluations += len(d["rejected"]) + 1
         if not d["base_ok"] or (d["v"] == 0 and not d["all_keys_sign_ok"]):
@@ -416,20 +426,30 @@ def run(ctx):
                     ctx.violation({"harness": "c06 pert %d %d" % (ctx.seed, n_p), "perturbation": name, "version": d["v"],
                                    "case_index": pert.index(d)},
                                   "verification survives the perturbation `%s`" % name)
-        if d["v"] == 1 and not d["sponsor_sig_dropped_rejected"]:
-            if "KF-C06-1" in known_ids:
-                ctx.known_finding("KF-C06-1", "AccountTransactionV1::verify_transaction_signature accepts a transaction whose header names a "
-                                  "sponsor but that carries no sponsor signature (theorem sponsored_requires_sponsor_signature_refuted)")
-            else:
-                ctx.violation({"harness": "c06 pert %d %d" % (ctx.seed, n_p), "perturbation": "sponsor signature removed, header.sponsor kept"},
-                              "a sponsored transaction without sponsor signature verifies")
+        if d["v"] == 1:
+            if not d["sponsor_sig_dropped_rejected"]:
+                ctx.violation({"harness": "c06 pert %d %d" % (ctx.seed, n_p), "perturbation": "sponsor signature removed, header.sponsor kept",
+                               "case_index": pert.index(d), "theorem": "sponsored_requires_sponsor_policy (regression witness prefix_verify_tx_v1_refuted)"},
+                              "a sponsored transaction without sponsor signature verifies (regression of fix 12eb729ed)")
+            # converse shape and plain v1: the model (= the code's rule) says accept iff the supplied sponsor signature
+            # satisfies the sponsor policy under the keys passed by the caller
+            conv = (d["converse_signed"], d["converse_wrong_sponsor_keys"], d["converse_stale_sponsor_sig"], d["unsponsored_v1"])
+            v1_shapes[conv] = v1_shapes.get(conv, 0) + 1
+            if conv != ("1", "0", "0", "1"):
+                ctx.violation({"harness": "c06 pert %d %d" % (ctx.seed, n_p), "case_index": pert.index(d), "observed": conv,
+                               "expected": ["1", "0", "0", "1"], "theorem": "verify_tx_v1_iff_policy",
+                               "fields": ["header.sponsor=None + valid sponsor signature", "same, wrong sponsor keys", "same, sponsor signature over another digest", "no sponsor at all"]},
+                              "v1 verification with header.sponsor = None differs from the model")
+            hash_level[d["sponsor_sig_dropped_hash_level"]] = hash_level.get(d["sponsor_sig_dropped_hash_level"], 0) + 1
     ctx.notes["perturbation_classes"] = classes
+    ctx.notes["v1_unnamed_sponsor_shapes"] = {"/".join(k): v for k, v in v1_shapes.items()}
+    ctx.notes["hash_level_v1_without_sponsor_signature"] = hash_level
     if survived:
         ctx.notes["perturbations_survived"] = survived
 
     # ---------------------------------------------------------------- 8. updates
     ctx.log("updates")
-    n_u = 300 if ctx.quick else 6000
+    n_u = 300 if ctx.quick else 3000
     rc, out = c.run_bin(binp, ["upd", ctx.seed, n_u], timeout=1800)
     if rc != 0:
         ctx.violation({"layer": "harness run", "output": out[-2000:]}, "update harness crashed", no_input=True)
